@@ -3,6 +3,7 @@
 import re
 from .facts import callee, callee_path
 from . import lib
+from . import ranges
 
 PANIC_CALL_RX = re.compile(
     r'(::unwrap$|::expect$|::unwrap_err$|::expect_err$|::unwrap_unchecked$'
@@ -158,9 +159,17 @@ def place_producer(body, pl, depth):
             return 'param' + proj
         return (name or 'arg%d' % l) + proj
     ds = defs_of(body, l)
+    if 2 <= len(ds) <= 4 and depth <= 4 and not body.local_is_user_mut(l):
+        # a value chosen among a few alternatives (`if c { a } else { b }`, the arms of a match, an inlined helper's returns)
+        alts = sorted({_one_def(body, d, proj, depth) for d in ds})
+        return alts[0] if len(alts) == 1 else 'phi(%s)' % '|'.join(alts)
     if len(ds) != 1:
         return (name or '_%d' % l) + proj + ('[]' if idx else '')
-    k, x, blk = ds[0]
+    return _one_def(body, ds[0], proj, depth)
+
+
+def _one_def(body, d, proj, depth):
+    k, x, blk = d
     if k == 'call':
         c = callee(x)
         n = short(c.get('resolved') or c['path']) if c else 'indirect'
@@ -234,6 +243,10 @@ def sites(ctx):
                 if assert_is_const_safe(body, t):
                     out.append({'body': body.path, 'block': i, 'kind': 'assert', 'desc': 'const-safe:' + kind, 'sp': t['sp'], 'macro': macro, 'auto': 'operands are compile-time integers and the check holds'})
                     continue
+                why = ranges.prove_site(body, i, t)
+                if why is not None:
+                    out.append({'body': body.path, 'block': i, 'kind': 'assert', 'desc': 'range-safe:' + kind, 'sp': t['sp'], 'macro': macro, 'auto': why})
+                    continue
                 if kind == 'bounds':
                     desc = 'bounds(index=%s)' % producer(body, t['index'])
                 else:
@@ -264,6 +277,8 @@ def sites(ctx):
                     out.append({'body': body.path, 'block': i, 'kind': 'diverge', 'desc': desc, 'sp': t['sp'], 'macro': macro})
                 elif array_range_is_safe(body, t, full):
                     out.append({'body': body.path, 'block': i, 'kind': 'call', 'desc': 'const-safe:array-range', 'sp': t['sp'], 'macro': macro, 'auto': 'constant range within a fixed-size array'})
+                elif (PANIC_CALL_RX.search(path) or PANIC_CALL_RX.search(full)) and ranges.prove_site(body, i, t) is not None:
+                    out.append({'body': body.path, 'block': i, 'kind': 'call', 'desc': 'range-safe:' + short(full), 'sp': t['sp'], 'macro': macro, 'auto': ranges.prove_site(body, i, t)})
                 elif PANIC_CALL_RX.search(path) or PANIC_CALL_RX.search(full):
                     a0 = producer(body, t['args'][0]) if t['args'] else ''
                     a1 = producer(body, t['args'][1]) if len(t['args']) > 1 else None
